@@ -166,7 +166,13 @@ func (sAddr) Network() string { return "sim" }
 func (sAddr) String() string  { return "sim-peer" }
 
 // endpoint is one Client with what its Channel() reported.
+type handedUp struct {
+	ptr  *bpv7.Bundle
+	then []byte // its encoding at the moment it was handed up
+}
+
 type endpoint struct {
+	handed   []handedUp
 	cl       *Client
 	mu       sync.Mutex
 	got      [][]byte // encodings of received bundles
@@ -183,6 +189,8 @@ func (e *endpoint) collect(ch chan cla.ConvergenceStatus) {
 			b := cs.Message.(cla.ConvergenceReceivedBundle).Bundle
 			_ = b.MarshalCbor(&buf)
 			e.got = append(e.got, buf.Bytes())
+			// the status carries a pointer: an upper layer that is slower than the link looks at it later
+			e.handed = append(e.handed, handedUp{ptr: b, then: buf.Bytes()})
 		case cla.PeerAppeared:
 			e.appeared++
 		case cla.PeerDisappeared:
@@ -204,6 +212,7 @@ type sessSim struct {
 	sent  map[string]string // tag -> encoding
 	okTo  [2]map[string]bool // Send returned nil for tag, by receiving side
 	allGot [2][][]byte        // everything ever received per side (all incarnations)
+	allHanded [2][]handedUp
 	seq   int
 	passiveStartErr error
 	passiveStarted  chan struct{}
@@ -317,6 +326,8 @@ func (s *sessSim) harvest() {
 			continue
 		}
 		e.mu.Lock()
+		s.allHanded[i] = append(s.allHanded[i], e.handed...)
+		e.handed = nil
 		s.allGot[i] = append(s.allGot[i], e.got...)
 		e.got = nil
 		e.mu.Unlock()
@@ -551,6 +562,17 @@ func (s *sessSim) finish() {
 		for _, t := range tags {
 			if count[t] > 1 {
 				s.res.Violate("C11", "exactly-one", "bundle-delivered-twice", "side %d handed up %s %d times", side, t, count[t])
+			}
+		}
+	}
+	// a bundle that was handed up stays what it was (the CLA must not reuse the object for the next one)
+	for side := 0; side < 2; side++ {
+		for i, h := range s.allHanded[side] {
+			var buf bytes.Buffer
+			_ = h.ptr.MarshalCbor(&buf)
+			if !bytes.Equal(buf.Bytes(), h.then) {
+				s.res.Violate("C11", "exact-bundle", "handed-up-bundle-overwritten-by-a-later-one", "side %d: the %d-th bundle handed up (%s) reads as %s at the end of the run", side, i, valid[string(h.then)], valid[string(buf.Bytes())])
+				break
 			}
 		}
 	}
